@@ -229,6 +229,43 @@ def build_rhythm(spec):
     return reg
 
 
+class Injector:
+    """Statement-level delivery (DESIGN.md A.4): deliver one event immediately BEFORE the k-th `line`
+    event (0-based) of the n-th call (0-based) of a chosen function of wheatley/bot.py or
+    wheatley/rhythm/*.py - i.e. as if the socket thread ran the handler at that statement boundary
+    of the main thread.  Located by function name + ordinal, never by line number."""
+
+    def __init__(self, sim, spec):
+        self.sim = sim
+        self.func, self.call_no, self.stmt, self.event = spec["func"], spec.get("call", 0), spec["stmt"], spec["event"]
+        self.file = spec.get("file", "bot.py")
+        self.calls = 0
+        self.fired = False
+        self.lines_seen = None
+
+    def trace(self, frame, event, arg):
+        code = frame.f_code
+        if code.co_name != self.func or not code.co_filename.endswith("wheatley/" + self.file) or self.fired:
+            return None
+        if event == "call":
+            mine = self.calls == self.call_no
+            self.calls += 1
+            if not mine:
+                return None
+            self.lines_seen = 0
+            return self.local
+        return None
+
+    def local(self, frame, event, arg):
+        if event == "line" and not self.fired:
+            if self.lines_seen == self.stmt:
+                self.fired = True
+                self.sim.deliver(self.event)
+                self.sim.sleep(0)      # a human pull is broadcast at once: let that broadcast arrive here too
+            self.lines_seen += 1
+        return self.local
+
+
 def run_scenario(sc, build_generator, inspect=None):
     """Runs one scenario on the implementation.  Returns
     {"ctor_err": kind} or {"trace": [...], "outcome": [...], "malformed": n}."""
@@ -252,6 +289,11 @@ def run_scenario(sc, build_generator, inspect=None):
         bot = Bot(tower, gen, sc["udi"], sc["stop_at_rounds"], sc["call_comps"], rhythm,
                   user_name=sc.get("name"), server_instance_id=sc.get("instance"))
         outcome = None
+        injector = None
+        if sc.get("inject"):
+            import sys as _sys
+            injector = Injector(sim, sc["inject"])
+            _sys.settrace(injector.trace)
         try:
             with tower:
                 sim.client = socketio.last_client()
@@ -264,12 +306,18 @@ def run_scenario(sc, build_generator, inspect=None):
             outcome = ["stopped"]
         except Exception as e:  # pylint: disable=broad-except
             outcome = ["crashed", coqfmt.exn_kind(e), type(e).__name__, str(sim.now)]
+        if injector is not None:
+            import sys as _sys
+            _sys.settrace(None)
         res = {"trace": [[str(t)] + list(rest) for (t, *rest) in sim.out], "outcome": outcome,
+               "injected": None if injector is None else injector.fired,
                "malformed": len(sim.malformed_emits), "end": str(sim.now), "rejected": sim.rejected,
                "client_log": [(k, e) for (k, e, _d) in sim.client.log[:16]] if sim.client else []}
         if inspect is not None:
             res["inspect"] = inspect(bot, tower, rhythm, sim)
         return res
     finally:
+        import sys as _sys
+        _sys.settrace(None)
         _time.time, _time.sleep, wtower.sleep = old
         socketio.set_sink(None)
